@@ -612,12 +612,12 @@ impl DefaultFunction {
                 let skip: usize = if arg1.lt(&0.into()) {
                     0
                 } else {
-                    arg1.try_into().unwrap()
+                    arg1.try_into().unwrap_or(usize::MAX)
                 };
                 let take: usize = if arg2.lt(&0.into()) {
                     0
                 } else {
-                    arg2.try_into().unwrap()
+                    arg2.try_into().unwrap_or(usize::MAX)
                 };
 
                 let ret: Vec<u8> = arg3.iter().skip(skip).take(take).cloned().collect();
@@ -637,7 +637,7 @@ impl DefaultFunction {
                 let arg1 = args[0].unwrap_byte_string()?;
                 let arg2 = args[1].unwrap_integer()?;
 
-                let index: i128 = arg2.try_into().unwrap();
+                let index: i128 = arg2.try_into().unwrap_or(-1);
 
                 if 0 <= index && index < arg1.len() as i128 {
                     let ret = arg1[index as usize];
